@@ -220,3 +220,51 @@ def scale_for(g):
         return st.one_of(st.just(1), st.sampled_from([2, P - 1, (P + 1) // 2]), uniform_int(1, P - 1))
     nz = st.tuples(uniform_int(0, P - 1), uniform_int(0, P - 1)).filter(lambda t: t != (0, 0)).map(list)
     return st.one_of(st.just([1, 0]), st.sampled_from([[0, 1], [P - 1, 0], [1, 1], [0, P - 1]]), nz)
+
+
+# ---- pairing monitor --------------------------------------------------------------------------------------
+_PM = {"installed": False, "depth": 0, "observers": []}
+
+
+def install_pairing_monitor(observer):
+    """Call observer(Q, P) (library point objects) once for every OUTERMOST evaluation of the optimized
+    BLS12-381 `pairing` or `miller_loop`, whoever calls it: the two functions are wrapped in their defining
+    module and every other binding of them in a loaded py_ecc module (`from ... import pairing`) is rebound, so
+    a verifier that is refactored to call miller_loop directly, or through another alias, is still observed."""
+    import sys
+    import py_ecc.bls.ciphersuites  # noqa: F401 - make sure the consumers are loaded before rebinding
+    import py_ecc.optimized_bls12_381.optimized_pairing as op
+    _PM["observers"].append(observer)
+    if _PM["installed"]:
+        return
+    originals = {}
+    for name in ("pairing", "miller_loop"):
+        fn = getattr(op, name, None)
+        if callable(fn):
+            originals[name] = fn
+    if not originals:
+        raise RuntimeError("py_ecc.optimized_bls12_381.optimized_pairing has neither pairing nor miller_loop")
+
+    def wrap(real):
+        def monitored(Q, Pt, *a, **k):
+            outer = _PM["depth"] == 0
+            if outer:
+                for ob in _PM["observers"]:
+                    ob(Q, Pt)
+            _PM["depth"] += 1
+            try:
+                return real(Q, Pt, *a, **k)
+            finally:
+                _PM["depth"] -= 1
+        monitored.__wrapped__ = real
+        monitored.__name__ = getattr(real, "__name__", "pairing")
+        return monitored
+
+    wrapped = {id(fn): wrap(fn) for fn in originals.values()}
+    for mname, mod_ in list(sys.modules.items()):
+        if mod_ is None or not (mname == "py_ecc" or mname.startswith("py_ecc.")):
+            continue
+        for attr, val in list(vars(mod_).items()):
+            if id(val) in wrapped and val in originals.values():
+                setattr(mod_, attr, wrapped[id(val)])
+    _PM["installed"] = True
